@@ -22,6 +22,7 @@ type tncConn struct {
 	dataOut  chan<- []byte
 	dataIn   <-chan []byte
 	eofChan  chan struct{}
+	tncDone  <-chan struct{} // Closed when the TNC is closed. Guards sends on ctrlOut and dataOut.
 	ctrlIn   broadcaster
 	isTCP    bool
 	onClose  []func() error
@@ -120,7 +121,11 @@ L:
 		conn.lockNext = true
 		conn.mu.Unlock()
 
-		conn.dataOut <- buf.Bytes()
+		select {
+		case conn.dataOut <- buf.Bytes():
+		case <-conn.tncDone:
+			return 0, ErrTNCClosed
+		}
 		conn.mu.Lock()
 		conn.nWritten += n
 		conn.mu.Unlock()
@@ -192,7 +197,11 @@ func (conn *tncConn) Close() error {
 	r := conn.ctrlIn.Listen()
 	defer r.Close()
 
-	conn.ctrlOut <- string(cmdDisconnect)
+	select {
+	case conn.ctrlOut <- string(cmdDisconnect):
+	case <-conn.tncDone:
+		return ErrTNCClosed
+	}
 	timeout := time.After(flushAndCloseTimeout)
 	for {
 		select {
@@ -206,7 +215,10 @@ func (conn *tncConn) Close() error {
 				return nil
 			}
 		case <-timeout:
-			conn.ctrlOut <- string(cmdAbort)
+			select {
+			case conn.ctrlOut <- string(cmdAbort):
+			case <-conn.tncDone:
+			}
 			return ErrDisconnectTimeout
 		}
 	}
